@@ -134,6 +134,10 @@ def worker_main(prop_id):
         t0 = time.time()
         faulthandler.dump_traceback_later(msg["timeout"], exit=True)
         try:
+            if isinstance(msg["shard"], dict) and msg["shard"].get("_pyflags"):
+                # what this interpreter was really started with (optimisation level, warning filters)
+                rec.seen("interpreter-options", "optimize=%d warnoptions=%s" % (sys.flags.optimize, ",".join(sys.warnoptions) or "-"))
+                rec.count("shards-in-an-interpreter-with-other-options")
             mod.run(msg["shard"], rec, msg["tier"], msg["seed"])
         except BaseException:
             rec.inconclusive.append("harness error in shard %r: %s" % (msg["shard"], traceback.format_exc()[-3000:]))
